@@ -3,6 +3,7 @@ package c19
 
 import (
 	"bytes"
+	"math"
 	"encoding/json"
 	"errors"
 	"fmt"
@@ -313,6 +314,30 @@ type scopeF struct {
 	B []byte `json:",format:base16"`
 }
 
+// encode-side values whose marshaling fails inside a member carrying a `string` or `format` tag
+type failM struct{}
+
+func (failM) MarshalJSON() ([]byte, error) { return nil, errors.New("failM refuses") }
+
+type scopeFail1 struct {
+	A int     `json:"a"`
+	F float64 `json:",string"`
+}
+type scopeFail2 struct {
+	X failM `json:",string"`
+	A int
+}
+type scopeFail3 struct {
+	A int
+	B failM `json:",format:base16"`
+	C []byte `json:",format:base16"`
+}
+type scopeFail4 struct {
+	A  int         `json:",string"`
+	In scopeFail1  `json:"in"`
+	P  *scopeFail2 `json:",omitzero"`
+}
+
 func snapshot(o jsonv2.Options, ks []key) string {
 	var sb strings.Builder
 	for _, k := range ks {
@@ -323,14 +348,14 @@ func snapshot(o jsonv2.Options, ks []key) string {
 }
 
 func scoping(r *evid.Run, ks []key) {
-	baseSets := [][]jsonv2.Options{nil, {jsontext.AllowDuplicateNames(true)}, {jsonv2.Deterministic(true), jsontext.SpaceAfterComma(true)}, {jsonv1.DefaultOptionsV1()}}
+	baseSets := [][]jsonv2.Options{nil, {jsontext.AllowDuplicateNames(true)}, {jsonv2.Deterministic(true), jsontext.SpaceAfterComma(true)}, {jsonv1.DefaultOptionsV1()}, {jsonv2.ExperimentalSupportFormatTag(true), jsontext.AllowDuplicateNames(true)}}
 	extraSets := [][]jsonv2.Options{nil, {jsonv2.StringifyNumbers(true)}, {jsonv2.RejectUnknownMembers(true), jsonv2.MatchCaseInsensitiveNames(true)}, {jsonv2.FormatNilSliceAsNull(true), jsonv2.OmitZeroStructFields(true)}, {jsonv2.WithMarshalers(mA), jsonv2.WithUnmarshalers(uA)}, {jsonv2.ExperimentalSupportFormatTag(true)}}
 	// decode side: documents with an error at every stage (string-tagged fields, nested, format-tagged, unknown members, syntax)
 	docs := []string{
 		`{"a":1}`, `{"S":"12","F":"1.5"}`, `{"a":1,"S":"1"}`, `{"S":"x"}`, `{"S":12}`, `{"F":"1e999"}`, `{"a":"no"}`, `{"M":{"k":{"S":"bad"}}}`, `{"L":[{"a":1},{"S":"bad"}]}`, `{"M":{"k":{"a":1}},"a":true}`,
 		`{"B":"zz"}`, `{"B":"00ff"}`, `{"unknown":{"deep":[1,2,{"x":null}]}}`, `{"a":1,"a":2}`, `{"a":1`, `{"Z":{"k":[1,{"j":"v"}]},"S":"3","a":[]}`, `[1]`,
 	}
-	var n, nOK, nErr int64
+	var n, nOK, nErr, nEncOK, nEncErr int64
 	for bi, base := range baseSets {
 		for ei, extra := range extraSets {
 			for _, doc := range docs {
@@ -369,7 +394,8 @@ func scoping(r *evid.Run, ks []key) {
 				}
 			}
 			// encode side
-			vals := []any{scopeT{A: 1, S: 2, F: 1.5}, scopeT{M: map[string]scopeT{"k": {L: []scopeT{{Z: make(chan int)}}}}}, scopeT{Z: map[string]any{"a": []any{1.0, func() {}}}}, []any{1, "a"}, map[string]any{"\xff": 1}}
+			vals := []any{scopeFail1{F: math.NaN()}, scopeFail2{}, scopeFail3{}, scopeFail4{A: 1, In: scopeFail1{F: math.Inf(1)}}, []any{scopeFail2{}}, map[string]any{"k": scopeFail3{}},
+				scopeT{A: 1, S: 2, F: 1.5}, scopeT{M: map[string]scopeT{"k": {L: []scopeT{{Z: make(chan int)}}}}}, scopeT{Z: map[string]any{"a": []any{1.0, func() {}}}}, []any{1, "a"}, map[string]any{"\xff": 1}}
 			for vi, v := range vals {
 				n++
 				var bb bytes.Buffer
@@ -379,6 +405,11 @@ func scoping(r *evid.Run, ks []key) {
 				after := snapshot(enc.Options(), ks)
 				if before != after {
 					r.Violation(fmt.Sprintf("c19|scope-enc|%d|%d|%d", bi, ei, vi), fmt.Sprintf("Encoder options changed by MarshalEncode (err=%v): %s", err, diffSnap(before, after)), Case{Part: "scoping", Note: fmt.Sprintf("MarshalEncode value#%d base#%d extra#%d", vi, bi, ei)}, nil)
+				}
+				if err != nil {
+					nEncErr++
+				} else {
+					nEncOK++
 				}
 			}
 		}
@@ -405,10 +436,10 @@ func scoping(r *evid.Run, ks []key) {
 			r.Violation(fmt.Sprintf("c19|snapshot|%v", single), "an Options value obtained with JoinOptions(enc.Options()) changed after the call returned / the Encoder was reset: "+diffSnap(inside, now), Case{Part: "scoping", Note: "JoinOptions snapshot aliasing"}, nil)
 		}
 	}
-	r.Outcomes(map[string]int64{"scoping: UnmarshalDecode succeeded": nOK, "scoping: UnmarshalDecode failed": nErr})
+	r.Outcomes(map[string]int64{"scoping: UnmarshalDecode succeeded": nOK, "scoping: UnmarshalDecode failed": nErr, "scoping: MarshalEncode succeeded": nEncOK, "scoping: MarshalEncode failed": nEncErr})
 	r.Evaluations.Add(n)
 	r.Nontrivial.Add(n)
-	r.Bound("scoping: %d coder base option sets x %d per-call option sets x %d documents (errors at every stage: string-/format-tagged fields, nested, unknown, duplicate, syntax) for UnmarshalDecode and 5 values for MarshalEncode: every option key of the coder identical before and after; JoinOptions snapshots do not alias live coder options", len(baseSets), len(extraSets), len(docs))
+	r.Bound("scoping: %d coder base option sets x %d per-call option sets x %d documents (errors at every stage: string-/format-tagged fields, nested, unknown, duplicate, syntax) for UnmarshalDecode and 11 values for MarshalEncode (among them string- and format-tagged members whose value fails to marshal, at top level and nested): every option key of the coder identical before and after; JoinOptions snapshots do not alias live coder options", len(baseSets), len(extraSets), len(docs))
 }
 
 func diffSnap(a, b string) string {
@@ -623,6 +654,11 @@ func replayCase(cs Case) string {
 		return ""
 	}
 	all := atoms()
+	for _, a := range atoms() {
+		if a.opt != nil {
+			all = append(all, atom{"JoinOptions(" + a.name + ")", jsonv2.JoinOptions(a.opt), a.apply})
+		}
+	}
 	var seq []atom
 	for _, n := range cs.Atoms {
 		for _, a := range all {
@@ -654,15 +690,29 @@ func Run(r *evid.Run) {
 	r.Rule("atoms = every exported option constructor of json, jsontext and v1 with every argument class (30 boolean options x {true,false}, WithIndent x 3, WithIndentPrefix x 2, WithMarshalers/WithUnmarshalers x {nil,A,B}, DefaultOptionsV1, DefaultOptionsV2, nested JoinOptions, nil, empty join). All atom sequences up to length L (full alphabet) and L+1 (sub-alphabet): GetOption (value and presence) of all 34 keys on JoinOptions(seq), on left- and right-nested joins equals a last-wins map model (couplings: WithIndent/WithIndentPrefix imply Multiline; DefaultOptionsV1/V2 set exactly the documented legacy options); on a behaviour subset, Marshal/Unmarshal with the options passed separately, joined and nested agree on an option-sensitive corpus. Irrelevance of encode-only / decode-only options; coder options identical before and after MarshalEncode/UnmarshalDecode with per-call options on success and on every error exit; JoinOptions snapshots do not alias; v1 functions == v2 + DefaultOptionsV1; DefaultOptionsV2 cancels. evaluations = sequences / scenarios; distinct_nontrivial = distinct sequences in which a later atom overrides an earlier one")
 	r.Assume("last-wins map model with the documented couplings")
 	ks := keys()
-	as := atoms()
+	prim := atoms()
+	as := append([]atom(nil), prim...)
+	// every atom also in pre-joined form: JoinOptions(x) is a different dynamic type (an option struct) and is
+	// merged by a different branch of the join than the bare option value
+	for _, a := range prim {
+		if a.opt != nil {
+			as = append(as, atom{"JoinOptions(" + a.name + ")", jsonv2.JoinOptions(a.opt), a.apply})
+		}
+	}
 	full, sub := 2, 3
 	if r.Tier == "thorough" {
 		full, sub = 3, 5
 	}
 	// sub-alphabet: first 14 boolean options (true only for odd, both for even) + non-boolean atoms
 	var subAlpha []atom
-	for i, a := range as {
+	for i, a := range prim {
 		if i >= 60 || (i < 28 && i%4 != 3) {
+			subAlpha = append(subAlpha, a)
+		}
+	}
+	for _, a := range as[len(prim):] {
+		switch a.name {
+		case `JoinOptions(WithIndent(" "))`, "JoinOptions(WithMarshalers(A))", "JoinOptions(WithUnmarshalers(B))", "JoinOptions(Deterministic(false))", "JoinOptions(DefaultOptionsV2())":
 			subAlpha = append(subAlpha, a)
 		}
 	}
@@ -731,6 +781,8 @@ func Run(r *evid.Run) {
 	run(subAlpha, sub, 29)
 	r.Sample(Case{Part: "algebra", Atoms: []string{"DefaultOptionsV1()", "WithIndent(\" \")", "Multiline(false)"}})
 	irrelevance(r)
+	witnessLaws(r)
+	formatWrappers(r)
 	scoping(r, ks)
 	v1v2(r, ks)
 	universe(r)
